@@ -35,7 +35,8 @@
 (***************************************************************************)
 EXTENDS ParserSM, SuffixDefs, Json
 
-CONSTANTS Alpha, MaxN, Blks, MinMs, Wnds, Variant, EmitOps, AllowNTL, TwoWrites
+CONSTANTS Alpha, MaxN, Blks, MinMs, Wnds, Variant, EmitOps, AllowNTL, TwoWrites,
+          AllowNil   \* TRUE: Parse(nil) is explored as well (C14); the C12 rules then stop applying
 
 VARIABLES t,      \* the whole text (arrives in one or two writes)
           avail,  \* bytes written so far
@@ -139,12 +140,25 @@ WriteRest ==
   /\ ops' = IF EmitOps THEN Append(ops, [op |-> "write", p |-> SubSeq(t, avail + 1, Len(t))]) ELSE ops
   /\ UNCHANGED <<t, cf, w, bits, sorted>>
 
-Next == DoParse \/ WriteRest
+(* Parse(nil): the block is skipped - the parse position advances, the      *)
+(* search set is left alone (the next sort() re-inserts all positions in   *)
+(* front of the parse position)                                            *)
+DoParseNil ==
+  /\ AllowNil
+  /\ LET n == Min(avail - w, cf.Blk) IN
+     /\ n > 0
+     /\ ev' = [op |-> "parsenil", n |-> n, err |-> ""]
+     /\ st' = PEff(st, ev')
+     /\ w' = w + n
+     /\ ops' = IF EmitOps THEN Append(ops, [op |-> "parsenil", flags |-> 0]) ELSE ops
+  /\ UNCHANGED <<t, avail, cf, bits, sorted>>
+
+Next == DoParse \/ WriteRest \/ DoParseNil
 Spec == Init /\ [][Next]_vars
 
 (* every emitted block satisfies the envelope (C01 C02 C03 C12 rules) *)
-Refines == [][ev'.op = "parse" => PWhy(st, ev', {"C12"}) = {}]_vars
-StateInv == w = st.w /\ (sorted > 0 => \A i \in 0 .. w - 1 : i \in bits)
+Refines == [][ev'.op \in {"parse", "parsenil"} => PWhy(st, ev', {"C12"}) = {}]_vars
+StateInv == w = st.w /\ ((sorted > 0 /\ st.nils = 0) => \A i \in 0 .. w - 1 : i \in bits)
 (* the search set never holds a position the parser has not reached *)
 NoFuture == sorted > 0 => \A k \in bits : k < w
 
